@@ -249,6 +249,7 @@ pub fn pool() -> Vec<(&'static str, String)> {
         ("explicit_query_only", format!("{}{}", EXPLICIT_QUERY_ONLY, BUILTINS)),
         ("pets", format!("{}{}", PETS, BUILTINS)),
         ("plain", PLAIN.to_string()),
+        ("decoy", format!("{}{}", DECOY, BUILTINS)),
     ]
 }
 
@@ -265,6 +266,18 @@ scalar Float
 scalar Int
 scalar ID
 scalar String
+";
+
+/// object types literally named Query / Mutation / Subscription that are NOT the roots, defined
+/// BEFORE the schema definition that names the real roots
+pub const DECOY: &str = "
+type Query { a: Int sub: Subscription }
+type Mutation { m: Int }
+type Subscription { plan: String renewal: String }
+type RealQuery { current: Subscription q: Query ev: Events }
+type RealMutation { doIt(n: Int): Int }
+type Events { created: String deleted: String plan: String }
+schema { query: RealQuery mutation: RealMutation subscription: Events }
 ";
 
 /// a schema that defines none of the names documents use (C15: "whether or not the schema
